@@ -45,14 +45,15 @@ def decayed (d : Int → α) (s : State α) (dt : Int) : α :=
   else if ((1 : Nat) : α) < s.transient ∧ 0 < dt then s.transient * d dt
   else s.transient
 
-/-- `DynamicBanScore.increase(persistent, transient, t)`: new state and returned score -/
+/-- `DynamicBanScore.increase(persistent, transient, t)`: new state and returned score
+    (`return s.int(t)`, fix 8c2b5a5d) -/
 def increase (d : Int → α) (trunc : α → Nat) (s : State α) (p tr : Nat) (t : Int) : State α × Nat :=
   let pers := u32 (s.persistent + p)
   let dt := elapsed t s.lastUnix
   let s' : State α :=
     if 0 < tr then { lastUnix := t, transient := decayed d s dt + (tr : α), persistent := pers }
     else { s with persistent := pers }
-  (s', u32 (pers + u32 (trunc s'.transient)))
+  (s', score d trunc s' t)
 
 def zero : State α := { lastUnix := 0, transient := ((0 : Nat) : α), persistent := 0 }
 
@@ -66,10 +67,10 @@ def securityLambda : String := "math.Ln2 / Halflife"
 def securityIntIfs : List String := ["s.transient < 1 || dt < 0 || Lifetime < dt"]
 def securityIncreaseIfs : List String := ["transient > 0", "Lifetime < dt", "s.transient > 1 && dt > 0"]
 def securityDecayIfs : List String := ["t < precomputedLen"]
-def securityReturns : List String := ["return s.persistent", "return s.persistent + uint32(s.transient*decayFactor(dt))", "return s.persistent + uint32(s.transient)", "return precomputedFactor[t]", "return math.Exp(-1.0 * float64(t) * lambda)"]
+def securityReturns : List String := ["return s.persistent", "return s.persistent + uint32(s.transient*decayFactor(dt))", "return s.int(t)", "return precomputedFactor[t]", "return math.Exp(-1.0 * float64(t) * lambda)"]
 def securityIncreaseAssigns : List String := ["s.persistent += persistent", "tu := t.Unix()", "dt := tu - s.lastUnix", "s.transient = 0", "s.transient *= decayFactor(dt)", "s.transient += float64(transient)", "s.lastUnix = tu"]
 def securityIntSha : String := "c42430c3a201248638c24e213874282bb2ca9805382307a14f0dc2c1d4d5a99d"
-def securityIncreaseSha : String := "f7e6c4e82201c384528d57e7d259c18faf2ad382782edebcfdbba1875211d23a"
+def securityIncreaseSha : String := "c0a1dd21eb4691b7f6151f5f118743c366175513d543c5c5cc88628468626ca6"
 def securityDecaySha : String := "1c64f353507afbe0a8c9869a571c8ed1518e1bb8fb1f71338d1b65d373cb11a9"
 def securityTableFiller : String := "init"
 def trustHalflife : Nat := 60
@@ -79,10 +80,10 @@ def trustLambda : String := "math.Ln2 / Halflife"
 def trustIntIfs : List String := ["s.transient < 1 || dt < 0 || Lifetime < dt"]
 def trustIncreaseIfs : List String := ["transient > 0", "Lifetime < dt", "s.transient > 1 && dt > 0"]
 def trustDecayIfs : List String := ["t < precomputedLen"]
-def trustReturns : List String := ["return s.persistent", "return s.persistent + uint32(s.transient*decayFactor(dt))", "return s.persistent + uint32(s.transient)", "return precomputedFactor[t]", "return math.Exp(-1.0 * float64(t) * lambda)"]
+def trustReturns : List String := ["return s.persistent", "return s.persistent + uint32(s.transient*decayFactor(dt))", "return s.int(t)", "return precomputedFactor[t]", "return math.Exp(-1.0 * float64(t) * lambda)"]
 def trustIncreaseAssigns : List String := ["s.persistent += persistent", "tu := t.Unix()", "dt := tu - s.lastUnix", "s.transient = 0", "s.transient *= decayFactor(dt)", "s.transient += float64(transient)", "s.lastUnix = tu"]
 def trustIntSha : String := "c42430c3a201248638c24e213874282bb2ca9805382307a14f0dc2c1d4d5a99d"
-def trustIncreaseSha : String := "f7e6c4e82201c384528d57e7d259c18faf2ad382782edebcfdbba1875211d23a"
+def trustIncreaseSha : String := "c0a1dd21eb4691b7f6151f5f118743c366175513d543c5c5cc88628468626ca6"
 def trustDecaySha : String := "1c64f353507afbe0a8c9869a571c8ed1518e1bb8fb1f71338d1b65d373cb11a9"
 def trustTableFiller : String := "Init"
 end Src
